@@ -194,3 +194,127 @@ def data_branch_emissions(p: Program):
         node, fnn = col.nodes[datas[0].tag]
         out.append((pa, emit_bound, del_bound, more, no_boundary, node, ne, bool(dels)))
     return out, len(paths)
+
+
+# ----------------------------------------------------------------------------- decoder input discipline (C01 R1.6, C04, C15)
+def _decoder(p: Program):
+    dec = p.cls("baize.multipart:MultipartDecoder")
+    for m in ("receive_data", "_parse_headers", "next_event"):
+        if m not in dec.methods:
+            raise AnalysisError(f"MultipartDecoder.{m} vanished")
+    return dec
+
+
+def receive_data_discipline(p: Program, rep=None):
+    """An arriving chunk - empty ones included - is only appended; completion is signalled by None alone.
+    Yields (kind, fn, node, construct text, message, path facts)."""
+    from ..collect import run_paths
+    from ..flow import NONE, subterms
+
+    dec = _decoder(p)
+    rd = dec.methods["receive_data"]
+    BUF = ("attr", ("param", "self"), "buffer")
+    if rep is not None:
+        rep.analysed(rd.fq)
+    rpaths, rcol, _ = run_paths(p, rd, dec, inline=lambda fi: False)
+    if rep is not None:
+        rep.cfg_paths += len(rpaths)
+    dparam = rd.params[1] if len(rd.params) > 1 else "data"
+    IS_NONE = ("cmp", "Is", ("param", dparam), NONE)
+    ISNT = ("cmp", "IsNot", ("param", dparam), NONE)
+    out = []
+    for pa in rpaths:
+        if pa.exit != "return":
+            continue
+        none_t = True if (IS_NONE, True) in pa.facts or (ISNT, False) in pa.facts else (False if (IS_NONE, False) in pa.facts or (ISNT, True) in pa.facts else None)
+        completes = [e for e in pa.events if e.kind == "store" and e.a == ("attr", ("param", "self"), "complete") and e.b != ("const", False)]
+        extends = [e for e in pa.events if e.kind == "call" and e.a[0] == "attr" and e.a[1] == BUF and e.a[2] in ("extend", "__iadd__") and e.b == (("param", dparam),)]
+        extends += [e for e in pa.events if e.kind == "store" and e.a == BUF and ("param", dparam) in list(subterms(e.b))]
+        facts = pa.fact_text()[:4]
+        if completes and none_t is not True:
+            out.append(("violation", rd, None, "complete set for a chunk that is not None",
+                        "receive_data marks the body complete on a path where the chunk is not known to be None (e.g. an empty chunk): the decoder then reports the end of the form / "
+                        "'cannot parse beyond' although more bytes follow - the result depends on how the body was chunked (ASGI delivers empty messages, WSGI does not)", facts))
+        elif not completes and not extends and none_t is not True:
+            out.append(("violation", rd, None, "chunk dropped", "receive_data has a path on which a chunk is neither appended to the buffer nor the end-of-body signal", facts))
+        elif not completes and none_t is True:
+            out.append(("violation", rd, None, "None does not complete", "receive_data does not mark the body complete when it is given None", facts))
+        else:
+            out.append(("ok", rd, None, "", f"receive_data: {'None -> complete' if completes else 'every other chunk is appended to the buffer'}", facts))
+    return out
+
+
+def header_line_split(p: Program, rep=None):
+    """The header block is split into lines as BYTES: str.splitlines also splits at VT FF FS GS RS NEL LS PS, which may occur
+    inside a (decoded) field name or filename."""
+    from ..collect import callee_is, run_paths
+    from ..flow import subterms
+
+    dec = _decoder(p)
+    ph = dec.methods["_parse_headers"]
+    if rep is not None:
+        rep.analysed(ph.fq)
+    hpaths, hcol, _ = run_paths(p, ph, dec, inline=lambda fi: False)
+    if rep is not None:
+        rep.cfg_paths += len(hpaths)
+    n_split = 0
+    flagged = set()
+    out = []
+    for pa in hpaths:
+        for e in pa.events:
+            if e.kind == "call" and e.a[0] == "attr" and e.a[2] == "splitlines":
+                n_split += 1
+                dec_calls = [t for t in subterms(e.a[1]) if t[0] == "call" and (callee_is(t[1], "safe_decode") or (t[1][0] == "attr" and t[1][2] == "decode") or t[1] == ("builtin", "str"))]
+                node, fnn = hcol.nodes[e.tag]
+                if dec_calls and id(node) not in flagged:
+                    flagged.add(id(node))
+                    out.append(("violation", ph, node, "splitlines() on decoded text",
+                                "the part header block is decoded before it is split into lines: str.splitlines() also breaks at VT, FF, FS, GS, RS, NEL, U+2028 and U+2029, so a field name or "
+                                "filename containing one of them is cut (bytes.splitlines() breaks at CR/LF only)", []))
+    if n_split and not flagged:
+        out.append(("ok", ph, None, "", "_parse_headers splits the header block into lines before decoding (bytes.splitlines: CR/LF only)", []))
+    elif not n_split:
+        out.append(("undecided", ph, None, "", "_parse_headers: no splitlines() call found (line splitting idiom not recognised)", []))
+    return out
+
+
+def file_field_decision(p: Program, rep=None):
+    """A part is a file exactly when its Content-Disposition carries a filename parameter (an empty one included)."""
+    from ..collect import callee_is, run_paths
+    from ..flow import NONE, show
+
+    dec = _decoder(p)
+    ne = dec.methods["next_event"]
+    if rep is not None:
+        rep.analysed(ne.fq)
+    paths, col, _ = run_paths(p, ne, dec, inline=lambda fi: False)
+    out = []
+    n_kind = 0
+    for pa in paths:
+        made = [e for e in pa.events if e.kind == "call" and e.a[0] == "cls" and (callee_is(e.a, "File") or callee_is(e.a, "Field"))]
+        if not made:
+            continue
+        e = made[0]
+        is_file = callee_is(e.a, "File")
+        kw = dict(e.c)
+        fnv = kw.get("filename")
+        tests = [(f, t) for f, t in pa.facts if f[0] == "cmp" and f[1] in ("Is", "IsNot") and f[3] == NONE and f[2][0] == "call" and f[2][1][0] == "attr" and f[2][1][2] == "get" and f[2][2][:1] == (("const", "filename"),)]
+        node, fnn = col.nodes[e.tag]
+        n_kind += 1
+        which = "File" if is_file else "Field"
+        if not tests:
+            out.append(("violation", ne, node, f"{which} chosen without `filename is None` test",
+                        "the File/Field decision is not the test `filename is (not) None` of the Content-Disposition parameter: a part sent with filename=\"\" (an upload with an empty name) is "
+                        "treated as a text field - buffered in memory, counted against the field-size limit and decoded", pa.fact_text()[:6]))
+            continue
+        f, t = tests[0]
+        present = (f[1] == "IsNot") == t
+        if present != is_file:
+            out.append(("violation", ne, node, "File/Field inverted", "a part with a filename parameter becomes a Field (or one without becomes a File)", pa.fact_text()[:6]))
+        elif is_file and fnv != f[2]:
+            out.append(("violation", ne, node, f"File(filename={show(fnv)[:40] if fnv else None})", "the File event does not carry the filename parameter that was tested", pa.fact_text()[:6]))
+        else:
+            out.append(("ok", ne, None, "", f"{which} event <=> Content-Disposition filename parameter {'present' if is_file else 'absent'}", []))
+    if n_kind < 2:
+        out.append(("undecided", ne, None, "", f"expected a File and a Field construction path in next_event, found {n_kind}", []))
+    return out
